@@ -197,6 +197,8 @@ func aolOps(acc aolAccounts, v aolVariant) []explore.Op {
 		txOp("AddRecord(A,a,by=W,feepayer=F)", s(F, W), aoltypes.NewMsgAddRecordRequest("a", []byte("kf"), []byte("vf"), W.Bech, A.Bech, F.Bech)),
 		txOp("AddRecord(A,a,by=X)", s(X), aoltypes.NewMsgAddRecordRequest("a", []byte("kx"), []byte("vx"), X.Bech, A.Bech, "")),
 		txOp("AddRecord(A,a,by=A)", s(A), aoltypes.NewMsgAddRecordRequest("a", []byte("ka"), []byte("va"), A.Bech, A.Bech, "")),
+		// an unlisted writer whose fee is paid by a listed one: both sign, only the named writer's listing counts
+		txOp("AddRecord(A,a,by=X,feepayer=W)", s(W, X), aoltypes.NewMsgAddRecordRequest("a", []byte("kx"), []byte("vxw"), X.Bech, A.Bech, W.Bech)),
 	)
 	// rollback routes: a transaction whose later message fails (all of it is reverted), and transactions that are only
 	// simulated / checked on the node - none of them may leave any trace
@@ -824,10 +826,29 @@ func pageMatrix(s *explore.State, what, id string, want []string, call func(*que
 	got, _, err := call(nil)
 	if err != nil {
 		fail("nil-err", "nil pagination: %v", err)
-	} else if !eq(got, want) {
-		fail("nil", "nil pagination returned %v want %v", got, want)
+	} else {
+		wantNil := want
+		if n > 100 {
+			wantNil = want[:100] // the SDK's default page size
+		}
+		if !eq(got, wantNil) {
+			fail("nil", "nil pagination returned %v want %v", got, wantNil)
+		}
 	}
 	limits := []uint64{1, 2, uint64(n + 1)}
+	offsets := make([]int, 0, n+2)
+	for off := 0; off <= n+1; off++ {
+		offsets = append(offsets, off)
+	}
+	if n > 40 { // large listings: offsets around both ends and around the default page size, larger key-walk pages
+		limits = []uint64{7, 100, uint64(n + 1)}
+		offsets = offsets[:0]
+		for _, off := range []int{0, 1, 2, 98, 99, 100, 101, n - 2, n - 1, n, n + 1} {
+			if off >= 0 && off <= n+1 {
+				offsets = append(offsets, off)
+			}
+		}
+	}
 	for _, reverse := range []bool{false, true} {
 		exp := want
 		if reverse {
@@ -859,7 +880,7 @@ func pageMatrix(s *explore.State, what, id string, want []string, call func(*que
 					fail("keywalk", "key walk limit=%d reverse=%v count_total=%v yields %v want %v", lim, reverse, ct, all, exp)
 				}
 				// offset based
-				for off := 0; off <= n+1; off++ {
+				for _, off := range offsets {
 					got, pr, err := call(&query.PageRequest{Offset: uint64(off), Limit: lim, Reverse: reverse, CountTotal: ct})
 					if err != nil {
 						fail("offset-err", "offset=%d limit=%d reverse=%v: %v", off, lim, reverse, err)
@@ -960,7 +981,7 @@ func C01(t Tier) int {
 	v := aolVariant{ID: "C01", OwnRec: true, Ctl: []string{"NB", "RS", "XI"}}
 	sys := aolSystem(v)
 	dl := deadline(t, 150*time.Second, 15*time.Minute)
-	bounds := []explore.Bounds{{Depth: 5, V: 1, Deadline: dl}}
+	bounds := []explore.Bounds{{Depth: 4, V: 1, Deadline: dl}, {Depth: 5, V: 1, Deadline: dl}}
 	if t.Thorough {
 		bounds = []explore.Bounds{{Depth: 5, V: 1, Deadline: dl}, {Depth: 5, V: 2, Deadline: dl}, {Depth: 6, V: 2, Deadline: dl}, {Depth: 7, V: 2, Deadline: dl}}
 	}
@@ -969,7 +990,7 @@ func C01(t Tier) int {
 	// handed offsets 255, 256, 257 (offset encodings beyond one byte)
 	acc := aolAccs()
 	big := aolSystem(aolVariant{ID: "C01/big", OwnRec: true, Ctl: []string{"NB", "XI"}, Inject: &aolInject{Big: &aolBig{Owner: acc.A, Writer: acc.W, Name: "a", N: 255}}})
-	RunGraph(run, big, []explore.Bounds{{Depth: 3, V: 1, Deadline: dl}}, 6)
+	RunGraph(run, big, []explore.Bounds{{Depth: 3, V: 1, Deadline: deadline(t, 45*time.Second, 4*time.Minute)}}, 6)
 	run.Assumptions = []string{
 		"alphabet: 2 owners x 2 topic names (a, ab: one a byte-prefix of the other), writers W and A, fee payer F, outsider X; record values from a 5-entry menu",
 		"offsets up to 257 are reached through a genesis-injected topic holding 255 records; larger offsets and values outside the alphabet are not explored",
@@ -983,7 +1004,7 @@ func C02(t Tier) int {
 	v := aolVariant{ID: "C02", Forged: true, OwnACL: true, Ctl: []string{"NB"}}
 	sys := aolSystem(v)
 	dl := deadline(t, 150*time.Second, 15*time.Minute)
-	bounds := []explore.Bounds{{Depth: 5, V: 1, Deadline: dl}}
+	bounds := []explore.Bounds{{Depth: 4, V: 1, Deadline: dl}, {Depth: 5, V: 1, Deadline: dl}}
 	if t.Thorough {
 		bounds = []explore.Bounds{{Depth: 5, V: 1, Deadline: dl}, {Depth: 6, V: 1, Deadline: dl}, {Depth: 6, V: 2, Deadline: dl}, {Depth: 7, V: 2, Deadline: dl}}
 	}
@@ -998,7 +1019,6 @@ func C02(t Tier) int {
 
 func C13(t Tier) int {
 	run := report.NewRun("C13", t.Name, "model_checking", "E1+E2")
-	dl := deadline(t, 150*time.Second, 15*time.Minute)
 	A := world.NewAccount("A")
 	_ = A
 	injects := []*aolInject{nil, c13Inject()}
@@ -1013,7 +1033,8 @@ func C13(t Tier) int {
 		if in != nil {
 			d = depth - 1
 		}
-		RunGraph(run, sys, []explore.Bounds{{Depth: d, V: 1, Deadline: dl}}, 6)
+		idl := deadline(t, 100*time.Second, 8*time.Minute) // each initial state has its own budget
+		RunGraph(run, sys, []explore.Bounds{{Depth: d - 1, V: 1, Deadline: idl}, {Depth: d, V: 1, Deadline: idl}}, 6)
 	}
 	run.Assumptions = []string{
 		"initial states: empty; and a genesis with owners of address length 1, 19 (prefix of A), 21 (A plus one byte), 32, 255 and topic names a/ab/abc/70xz",
